@@ -204,6 +204,40 @@ let anim_of_tokens (ws : string list) : anim =
         c_ease_in_start = e1; c_ease_in_stop = e2; c_ease_out_start = e3; c_ease_out_stop = e4 }) in
   { a_major = maj; a_minor = mi; a_base_prio = bp; a_duration = du; a_emote = em; a_loop_in = li; a_loop_out = lo;
     a_loop = lp; a_ease_in = ei; a_ease_out = eo; a_hand_pose = hp; a_joints = js; a_constraints = cs }
+(* ---- whole inventory models (Asset/InvModel.v at live_table from gen/C20_invmodel.v).  A node is "<class idx> @ <record in
+   dataclass order>", nodes are separated by "||", dicts by "||" (entries as in LR).
+   IMT nodes        -> wf=<b> ids=<b> rt=<b> T=<code points of the text>     (rt: from_reader of the text, re-split at LF, == m)
+   IMR lines        -> ERR | N nodes # root=<node|-> cons=<b>
+   ILW fl nodes     -> wf=<b> ids=<b> rt=<b> D=<dicts> | ... D=ERR
+   ILR fl dicts     -> ERR | N nodes # root=.. cons=..
+   IEQ nodes ## nodes -> model_eqb ;  IADD nodes -> add() one after the other from the empty model *)
+let split_str (sep:string) (s:string) : string list =
+  let n = String.length s and k = String.length sep in
+  let rec go i start acc =
+    if i > n - k then List.rev (String.sub s start (n - start) :: acc)
+    else if String.sub s i k = sep then go (i + k) (i + k) (String.sub s start (i - start) :: acc)
+    else go (i + 1) start acc in
+  go 0 0 []
+let parse_node (w:string) =
+  let w = String.trim w in
+  let i = String.index w '@' in
+  (nat_of_int (int_of_string (String.trim (String.sub w 0 i))),
+   List.map parse_fval (String.split_on_char ';' (String.sub w (i + 1) (String.length w - i - 1))))
+let parse_nodes (s:string) = let s = String.trim s in if s = "" then [] else List.map parse_node (split_str "||" s)
+let show_node (i, r) = Printf.sprintf "%d @ %s" (int_of_nat i) (String.concat " ; " (List.map show_fval r))
+let store_of ns = { s_nodes = List.map (fun nd -> (node_key live_table nd, nd)) ns; s_root = None }
+let show_store (m : store) =
+  Printf.sprintf "N %s # root=%s cons=%b" (String.concat " || " (List.map show_node (svalues m)))
+    (match m.s_root with Some nd -> show_node nd | None -> "-") (consistent live_table m)
+let resplit (ls : n list list) : n list list =
+  (* what StringIO.readline sees: the lines joined with LF, split at every LF *)
+  let flat = List.concat (List.map (fun l -> l @ [n_of_int 10]) ls) in
+  let rec go cur acc = function
+    | [] -> List.rev (if cur = [] then acc else List.rev cur :: acc)
+    | c :: r -> if int_of_n c = 10 then go [] (List.rev cur :: acc) r else go (c :: cur) acc r in
+  go [] [] flat
+let parse_dicts (s:string) : (n list * lval) list list =
+  List.map (fun d -> let d = String.trim d in if d = "" then [] else List.map parse_entry (String.split_on_char ';' d)) (split_str "||" s)
 let show_written (o : n list option) = match o with Some b -> hex_of_bytes b | None -> "ERR"
 let () =
   try
@@ -345,6 +379,42 @@ let () =
         Printf.printf "%s %s\n" (show_str t) (match uuid_of_text t with Some r -> hex_of_n r | None -> "ERR")
       | ["X8"; h] -> let t = hex8_to_text (n_of_hex h) in
         Printf.printf "%s %s\n" (show_str t) (match hex_of_text t with Some r -> hex_of_n r | None -> "ERR")
+      | "IMT" :: _ ->
+        let ns = parse_nodes (rest_after line 1) in
+        let m = store_of ns in
+        let ls = to_writer live_table m in
+        let rt = (match from_reader live_table (resplit ls) with Some m' -> model_eqb m' m | None -> false) in
+        Printf.printf "wf=%b ids=%b rt=%b T=%s\n" (List.for_all (node_ok_text live_table) ns) (ids_distinct live_table ns) rt
+          (show_str (List.concat (List.map (fun l -> l @ [n_of_int 10]) ls)))
+      | "IMR" :: _ ->
+        (match from_reader live_table (lines_of (rest_after line 1)) with
+         | None -> print_endline "ERR"
+         | Some m -> print_endline (show_store m))
+      | "ILW" :: fl :: _ ->
+        let ns = parse_nodes (rest_after line 2) in
+        let m = store_of ns in
+        let f = flavor_of fl in
+        let wf = List.for_all (node_ok_llsd f live_table) ns and ids = ids_distinct live_table ns in
+        (match model_to_llsd f live_table m with
+         | None -> Printf.printf "wf=%b ids=%b rt=false D=ERR\n" wf ids
+         | Some ds ->
+           let rt = (match model_from_llsd f live_table ds with Some m' -> model_eqb m' m | None -> false) in
+           Printf.printf "wf=%b ids=%b rt=%b D=%s\n" wf ids rt
+             (String.concat " || " (List.map (fun d -> String.concat " ; " (List.map show_entry d)) ds)))
+      | "ILR" :: fl :: _ ->
+        let txt = rest_after line 2 in
+        let ds = if String.trim txt = "" then [] else parse_dicts txt in
+        (match model_from_llsd (flavor_of fl) live_table ds with
+         | None -> print_endline "ERR"
+         | Some m -> print_endline (show_store m))
+      | "IEQ" :: _ ->
+        (match split_str "##" (rest_after line 1) with
+         | [a; b] -> Printf.printf "%b\n" (model_eqb (store_of (parse_nodes a)) (store_of (parse_nodes b)))
+         | _ -> print_endline "?")
+      | "IADD" :: _ ->
+        (match add_all live_table empty_store (parse_nodes (rest_after line 1)) with
+         | None -> print_endline "ERR"
+         | Some m -> print_endline (show_store m))
       | "PI" :: cps -> (match int_of_text (cps_of (String.concat "" cps)) with Some r -> print_endline (string_of_int (int_of_z r)) | None -> print_endline "ERR")
       | _ -> print_endline "?"
     done
